@@ -339,6 +339,12 @@ def check(spec, ctx):
     if not geoms and not np.all(got == fill):
         ctx.fail("no geometries but some cells differ from fill", spec, got.tolist(), fill, kind="fill")
 
+    # geometries and template after a pickle round trip (worker processes, caches) give the same raster
+    import pickle
+
+    res_pk = rasterize(pickle.loads(pickle.dumps(geoms)), pickle.loads(pickle.dumps(arr)), **kw).transpose("time", "frequency").values
+    if not np.array_equal(res_pk, got):
+        ctx.fail("rasterize on unpickled geometries / template differs from the call on the originals", spec, None, None, kind="pickle")
     # the same call written positionally (documented order: geometries, array, values, fill, dtype) and with a tuple of geometries
     pos_args = [kw["values"] if "values" in kw else 1, kw["fill"], kw["dtype"]]
     res_p = rasterize(geoms, arr, *pos_args, all_touched=spec["all_touched"]).transpose("time", "frequency").values
